@@ -416,7 +416,7 @@ REPO_CLASS = {1: "RepositoryFormatKnit1", 2: "RepositoryFormatKnitPack1", 3: "Re
               7: "RepositoryFormatKnitPack6", 8: "RepositoryFormatKnitPack6RichRoot", 9: "RepositoryFormat2a"}
 BRANCH_CLASS = {5: "BzrBranchFormat5", 6: "BzrBranchFormat6", 7: "BzrBranchFormat7", 8: "BzrBranchFormat8"}
 TREE_CLASS = {3: "WorkingTreeFormat3", 4: "WorkingTreeFormat4", 5: "WorkingTreeFormat5", 6: "WorkingTreeFormat6"}
-HANG_SECONDS = 20
+HANG_SECONDS = 6       # for inputs the model predicts to diverge; 90 s for every other input
 
 
 def _check_format_classes():
@@ -483,11 +483,13 @@ def _upgrade_cases(rng, tier):
                     continue
                 combos.append((src, dst, layout))
     rng.shuffle(combos)
-    # every source format to 2a in every layout always; the rest sampled in the quick tier
+    # every source format to 2a always (quick: as a tree, and one other layout); the rest sampled in the quick tier
     must = [(s, "2a", l) for s in names for l in layouts if not _hangs(s, "2a", l)]
+    if tier == "quick":
+        must = [(s, "2a", "tree") for s in names] + [(s, "2a", rng.choice(["branch", "shared"])) for s in names[::2]]
     rest = [c for c in combos if c not in must]
     if tier == "quick":
-        rest = rest[:30]
+        rest = rest[:14]
     for (src, dst, layout) in must + rest:
         yield {"kind": "upgrade", "src": src, "dst": dst, "layout": layout, "clean_up": rng.random() < 0.4,
                "nrev": rng.randint(1, 4), "tags": {str(t): rng.randint(1, 4) for t in range(2) if rng.random() < 0.6},
@@ -499,18 +501,20 @@ def _upgrade_cases(rng, tier):
 def cases(rng, tier):
     shapes = list(SHAPES)
     if tier == "quick":
-        per_shape = 2
+        per_shape = 1
     else:
-        per_shape = 8
-    for shape in shapes:
+        per_shape = 4
+    for k, shape in enumerate(shapes):
         ts = list(TARGETS)
         rng.shuffle(ts)
+        if per_shape == 1:
+            ts = [TARGETS[(k * 3 + k // 8) % 8]]      # every factory gets its share of the shapes
         for t in ts[:per_shape]:
             c = _reconf_case(rng, shape, t)
             if c is not None:
                 yield c
     # variations of the bind-location preference and force on the layouts where they matter
-    nvar = 60 if tier == "quick" else 600
+    nvar = 40 if tier == "quick" else 300
     for _ in range(nvar):
         shape = (rng.choice(["none", "unshared", "shared"]), rng.random() < 0.5,
                  rng.choice(["local", "bound", "oldbound", "ref2", "ref1"]),
@@ -1022,7 +1026,7 @@ def impl_upgrade(inp):
         before = [_observe_cdir(p, ulocs) for p in [main] + deps]
         hang = False
         old = signal.signal(signal.SIGALRM, _alarm)
-        signal.alarm(HANG_SECONDS)
+        signal.alarm(HANG_SECONDS if _hangs(inp["src"], inp["dst"], inp["layout"]) else 90)
         try:
             try:
                 excs = upgrade.upgrade(_url(main), _F(inp["dst"]), clean_up=inp["clean_up"])
@@ -1230,7 +1234,7 @@ def oracle_reconf(inp, obs):
 def oracle_upgrade(inp, obs):
     names, main_out, _dep_outs = obs["model"]
     if obs["after"] is None:
-        return "upgrade-hang: upgrade(%s -> %s) did not finish within %d s" % (inp["src"], inp["dst"], HANG_SECONDS)
+        return "upgrade-hang: upgrade(%s -> %s) did not finish" % (inp["src"], inp["dst"])
     d = FORMATS[inp["dst"]]
     for k, (bf, af) in enumerate(zip(obs["before"], obs["after"])):
         for key in ("testaments", "texts"):
